@@ -55,6 +55,15 @@ def decorate(plan, rng):
     if rng.random() < 0.4:
         # inner attributes of the trait body are part of `ItemTrait::attrs` too (seeded change C08f)
         q.trait_inner = rng.choice(['#![allow(non_snake_case)] ', '#![doc = " inner doc"] ', '#![allow(dead_code)] #![doc = " two"] '])
+    if rng.random() < 0.4:
+        # methods whose argument patterns are not plain identifiers (the generated delegations rename such arguments; the user's trait must
+        # keep them — and its default bodies keep using the names the patterns bind; seeded change C08g)
+        q.trait_extra_items = rng.choice([
+            " fn pat0(_: u8, (lo, hi): (u8, u8)) -> u8 { lo + hi }",
+            " fn pat1(mut acc: u8, _: u8, ref r: u8) -> u8 { acc += *r; acc }",
+            " fn pat2(&self, (a, _): (u8, u8), [x, y]: [u8; 2], w @ 0..=9: u8) -> u8 { a + x + y + w }",
+            " fn pat3(_: u8, _arg0: u8) -> u8 { _arg0 } fn pat4(mut _x: u8) {}",
+        ])
     return q
 
 
